@@ -83,6 +83,13 @@ var propC16 = &pProp{
 	},
 	attrs: func(gp *genParser, req *parsersim.Request, v *parsersim.Violation, attrs map[string]string) {
 		attrs["nullable_loop"] = fmt.Sprint(gp.G.NullableLoops())
+		// the runtime does not memoise inside left-recursive rules: a zero-width
+		// loop there is charged to the budget also under Memoize(true)
+		if gp.LeftRec {
+			attrs["nullable_loop_in_memoised_rule"] = fmt.Sprint(gp.G.NullableLoopOutsideCycles())
+		} else {
+			attrs["nullable_loop_in_memoised_rule"] = fmt.Sprint(gp.G.NullableLoops())
+		}
 	},
 	nontriv: func(o *parsersim.Response) bool { return o.Stats["bounded_runs"] > 0 },
 	faults: func(st map[string]int) map[string]int {
